@@ -37,6 +37,8 @@ Inductive err := EHttp (code : N) | EPeek411 (* 411 raised by check_message_with
    the reference machines the fragmentation theorems are stated against. *)
 Record config := { allow_lf : bool; peek411 : bool; eager_hdr : bool }.
 Definition real : config := {| allow_lf := true; peek411 := true; eager_hdr := true |}.
+Definition reference : config := {| allow_lf := false; peek411 := false; eager_hdr := false |}.
+Definition eager_reference : config := {| allow_lf := false; peek411 := false; eager_hdr := true |}.
 
 Record msg := { m_line : bytes; m_hdrs : hdrs; m_body : bytes }.
 
